@@ -87,6 +87,11 @@ pub struct Mon<D: Store> {
     pub max_instr: usize,
     pub max_data: usize,
     pub budget_hit: Option<&'static str>,
+    /// reads of value cells through `&self` getters (a program may double a concatenation on every restart and
+    /// then look a key up in it: one step walks 2^k items without a single mutating call)
+    pub reads: std::cell::Cell<u64>,
+    pub max_reads: u64,
+    pub read_budget_hit: std::cell::Cell<bool>,
     // ---- counters
     pub n_calls: u64,
 }
@@ -111,6 +116,9 @@ impl<D: Store + Mk> Mon<D> {
             max_instr: usize::MAX,
             max_data: usize::MAX,
             budget_hit: None,
+            reads: std::cell::Cell::new(0),
+            max_reads: u64::MAX,
+            read_budget_hit: std::cell::Cell::new(false),
             n_calls: 0,
         };
         m.resync();
@@ -225,6 +233,15 @@ impl<D: Store + Mk> Mon<D> {
             }
         }
     }
+    fn count_read(&self) -> Result<(), DataError> {
+        let n = self.reads.get() + 1;
+        self.reads.set(n);
+        if n > self.max_reads {
+            self.read_budget_hit.set(true);
+            return Err(DataError::from("verif budget: reads".to_string()));
+        }
+        Ok(())
+    }
     fn data_budget(&mut self) -> Result<(), DataError> {
         if self.d.get_data_len() > self.max_data {
             self.budget_hit = Some("data");
@@ -300,6 +317,7 @@ impl<D: Store + Mk> GarnishData for Mon<D> {
     }
 
     fn get_data_type(&self, addr: usize) -> Result<GarnishDataType, DataError> {
+        self.count_read()?;
         fwd!(self.get_data_type(addr))
     }
     fn get_number(&self, addr: usize) -> Result<SimpleNumber, DataError> {
